@@ -60,8 +60,8 @@ std::size_t CaseInsensitiveSBufHash::operator()(const SBuf &) const noexcept { r
 #endif
 #define MAXTXT 72
 
-static bool isListWs(unsigned char c) { return c == ' ' || c == '\t' || c == '\r' || c == '\n'; }  // skipped before an item
-static bool isCSpace(unsigned char c) { return c == ' ' || (c >= 9 && c <= 13); }                   // trimmed after an item
+static bool isCSpace(unsigned char c) { return c == ' ' || (c >= 9 && c <= 13); }   // C isspace()
+static bool isListWs(unsigned char c) { return isCSpace(c); }                         // whitespace around list items, as Squid's lists define it
 static bool isDig(unsigned char c) { return c >= '0' && c <= '9'; }
 static unsigned char low(unsigned char c) { return (c >= 'A' && c <= 'Z') ? c + 32 : c; }
 
@@ -128,8 +128,8 @@ static int refQuoted(const unsigned char *s, const unsigned b, const unsigned e,
             if (i + 1 >= e) return 0;
             const unsigned char x = s[i + 1];
             if (x == '\t') return 4;
-            if (x <= 0x1f || x == 0x7f) return 0;
             if (x == '"' || x == '\\' || x == '\r' || x == '\n') return 5;   // 5: quoted-pairs Squid re-reads as unescaped (decided by the caller)
+            if (x <= 0x1f || x == 0x7f) return 0;
             out.add(x); i += 2; continue;
         }
         if (c == '\r' || c == '\n') {                             // a folded line inside the string: [CR] LF (SP|HT) reads as one space
@@ -160,9 +160,6 @@ static RefCc reference(const unsigned char *s, const unsigned len)
         }
         unsigned e = i;
         while (e > b && isCSpace(s[e - 1])) --e;
-        // KNOWN-FINDING candidate (list splitter, shared with C28): an item of nothing but VT/FF ends strListGetItem()'s
-        // iteration, so every directive after it ("public, \v, no-store") is never looked at. Excluded.
-        if (e == b) { r.excluded = true; break; }
         unsigned q = b; while (q < e && s[q] != '=') ++q;         // name [ "=" argument ]
         const bool hasArg = q < e;
         const unsigned a = q + 1;
